@@ -302,13 +302,20 @@ def c03(ctx):
     V.mc(ctx, "MC_C03", cfg="MC_C03_thorough.cfg" if thorough else "MC_C03.cfg", workers=12)
     summ = V.gen_traces(ctx, shards=12)
     V.validate(ctx, "Trace_C03", summ, c03_sig, par=12)
+    # B2: the states of the model's reachable graph, every operation applied to each on the real code
+    rows = os.path.join(ctx.dir, "c03.states.ndjson")
+    V.tlc_emit(ctx, "Gen_C03", rows, cfg="Gen_C03_thorough.cfg" if thorough else "Gen_C03.cfg")
+    summ2 = V.gen_traces(ctx, shards=12, name="trace-b2", extra=["-in", rows])
+    V.validate(ctx, "Trace_C03", summ2, c03_sig, par=12)
     if ctx.skipped > 0.25 * max(1, ctx.events):
         raise V.Broken("%d of %d events were skipped because `before` was not canonical" % (ctx.skipped, ctx.events))
     return V.finish(ctx, "model_checking",
                     rule="MC: the complete reachable graph of the logical adaptation field under all edit operations (lengths 1..23 sample, two PCR values, four data values): "
                          "Parse(Ser(a)) = a, canonical, error => unchanged. B3: from every adaptation_field_length 1..183 (with and without payload, blank and randomly populated), "
                          "random histories of all 16 setters (fill-to-capacity biased, copy from another packet) on real packets; every step logs all 188 bytes before/after, the error "
-                         "and all getters of both accessor families, validated by TLC as AdaptationField!Apply on the parsed record. class = (operation, length bucket, error, changed)",
+                         "and all getters of both accessor families, validated by TLC as AdaptationField!Apply on the parsed record. B2: Gen_C03 prints every reachable state of the model's graph "
+                         "(20 960 logical fields); the harness puts each into a real packet and applies every operation of the model to it (36 calls per state; quick: every 32nd state), "
+                         "validated the same way. class = (operation, length bucket, error, changed)",
                     trace_module="Trace_C03", sigfn=c03_sig,
                     assumptions=["TLC/SANY and the JVM", "a line whose `before` is no longer canonical (after a rejected line) is skipped, counted in trace_events_skipped_by_spec",
                                  "the value of a newly present PCR/OPCR/splice countdown is unspecified and bound to the observed bytes"])
